@@ -287,8 +287,11 @@ def row_of_class(encoding, operand, cls):
         inst = enc_struct.from_buffer_copy(raw)
         hit = [lf for lf in enc_leaves if lf[0] != "id" and read_leaf(inst, lf[0]) != 0]
         if len(hit) != 1 or read_leaf(inst, hit[0][0]) != 1:
-            raise GenError(f"{cls.__name__}: operand leaf {j} is not stored one-to-one by serialize(): {hit}")
-        enc_layout.append(hit[0])
+            # operand leaf j is written to no field, to several, or altered: record an impossible
+            # field so that row_ok fails and names the class (the oracles then look for the input)
+            enc_layout.append((f"<leaf {j} stored in {len(hit)} fields>", -1, 0, False))
+        else:
+            enc_layout.append(hit[0])
 
     # --- decode pairing: struct leaf -> operand leaf (one-hot probing of deserialize_from) ---
     dec_leaves = leaf_fields(dec_struct)
